@@ -180,8 +180,26 @@ pub struct RefNode {
     pub npaths: u64,
 }
 
+/// Which sub-rules of the unknown-word rule fired (summed over positions).
+#[derive(Clone, Debug, Default)]
+pub struct Trace {
+    pub lex_match: u32,
+    pub invoke_suppressed: u32,
+    pub invoke_with_match: u32,
+    pub group_emitted: u32,
+    pub group_omitted: u32,
+    pub bound_edge: u32,
+    pub length_prefix: u32,
+    pub length_ne_run: u32,
+    pub dup_skipped: u32,
+    pub fallback: u32,
+    pub multi_unk_entries: u32,
+    pub multi_cat_char: u32,
+}
+
 #[derive(Clone, Debug, Default)]
 pub struct RefLattice {
+    pub trace: Trace,
     pub len: usize,
     pub nodes: Vec<RefNode>,
     /// (start_node, start_word) pairs processed, in order.
@@ -271,6 +289,7 @@ impl<'a> RefDict<'a> {
         infos: &[RefCharInfo],
         p: usize,
         max_grouping_len: usize,
+        tr: &mut Trace,
     ) -> Vec<Cand> {
         let mut out = vec![];
         let rest = &chars[p..];
@@ -293,10 +312,21 @@ impl<'a> RefDict<'a> {
         }
         let info = infos[p];
         let cat = &self.spec.chardef.cats[info.primary];
+        tr.lex_match += u32::from(matched);
+        tr.multi_cat_char += u32::from(info.cats.count_ones() > 1);
         if matched && !cat.invoke {
+            tr.invoke_suppressed += 1;
             return out;
         }
+        tr.invoke_with_match += u32::from(matched);
         let run = Self::run(infos, p);
+        if cat.group && max_grouping_len != 0 && (run - 1 == max_grouping_len || run - 1 == max_grouping_len + 1) {
+            tr.bound_edge += 1;
+        }
+        if usize::from(cat.length) != run && cat.length > 0 {
+            tr.length_ne_run += 1;
+        }
+        tr.multi_unk_entries += u32::from(self.unk_by_cat[info.primary].len() > 1);
         let mut produced = matched;
         let mut ends = vec![];
         if cat.group {
@@ -304,17 +334,23 @@ impl<'a> RefDict<'a> {
             if max_grouping_len == 0 || run - 1 <= max_grouping_len {
                 ends.push(p + run);
                 produced = true;
+                tr.group_emitted += 1;
+            } else {
+                tr.group_omitted += 1;
             }
         }
         for n in 1..=usize::from(cat.length).min(run) {
             if cat.group && n == run {
+                tr.dup_skipped += 1;
                 continue;
             }
             ends.push(p + n);
             produced = true;
+            tr.length_prefix += 1;
         }
         if !produced {
             ends.push(p + 1);
+            tr.fallback += 1;
         }
         for e in ends {
             for &wid in &self.unk_by_cat[info.primary] {
@@ -378,7 +414,10 @@ impl<'a> RefDict<'a> {
                 break;
             }
             lat.processed.push((p, q));
-            for cand in self.candidates(&chars, &infos, q, max_grouping_len) {
+            let mut tr = std::mem::take(&mut lat.trace);
+            let cands = self.candidates(&chars, &infos, q, max_grouping_len, &mut tr);
+            lat.trace = tr;
+            for cand in cands {
                 let mut best = i64::MAX;
                 let mut np = 0u64;
                 let mut tp = 0u64;
